@@ -263,6 +263,12 @@ func (b *c07Box) modelable(q fileReq, pre []string) bool {
 		if strings.Contains(t, ":L:") {
 			return false // aliases in the tree: a hostile path may go through one
 		}
+		if strings.HasSuffix(t, ":D") {
+			// a DIRECTORY named .rsrc_<x> is counted as a resource fork of <x> with its inode size (4096 here)
+			if i := strings.LastIndex(string(unhx(strings.TrimSuffix(t, ":D"))), "/"); strings.HasPrefix(string(unhx(strings.TrimSuffix(t, ":D")))[i+1:], ".rsrc_") {
+				return false
+			}
+		}
 	}
 	if q.Kind == "dlfolder" || q.Kind == "upfolder" {
 		return false
@@ -321,82 +327,188 @@ func replyBytes(res []hotline.Transaction) []byte {
 
 var c07Ignore = regexp.MustCompile(`^[.@]`)
 
-func c07Canary(c *Case) {
-	r := c.R
-	ts, err := newTS(TSOpt{Direct: true, PreserveForks: r.Bool(),
+// c07Run is one sandbox with a direct client; Do runs one request under all monitors.
+type c07Run struct {
+	c      *Case
+	ts     *TS
+	box    *c07Box
+	cc     *hotline.ClientConn
+	before string
+	trace  []string
+	n      int
+}
+
+func newC07Run(c *Case, forks bool) *c07Run {
+	ts, err := newTS(TSOpt{Direct: true, PreserveForks: forks,
 		Accounts: []AcctSpec{{Login: "admin", Name: "admin", Password: "", Access: allAccess()}}})
 	if err != nil {
 		c.Disagree("fixture", "cannot build the test server: "+err.Error())
-		return
+		return nil
 	}
-	defer ts.Close()
-	box := c07Sandbox(r, ts)
-	cc, _ := ts.DirectClient("admin", []byte("admin"), "127.0.0.1:1")
-	before := box.outside(ts.Root)
-	var trace []string
-	for i := 0; i < 40; i++ {
-		q := box.hostileReq(r)
-		pre, okPre := treeTokens(ts.Root)
-		res, _, pan := ts.Call(cc, q.tran(uint32(i+1)))
-		reply := canonReply(q.Kind, res, pan)
-		trace = append(trace, q.String()+" => "+clipN7(reply, 120))
-		c.Dist("req/" + q.Kind + "/" + strings.SplitN(reply, " ", 2)[0])
-		after := box.outside(ts.Root)
-		if after != before {
-			c.Note("request", q.String())
-			c.Note("reply", clipN7(reply, 300))
-			c.Note("outside_diff", diffLines(before, after))
-			c.Note("history", trace)
-			c.Violation("escape-"+q.Kind, "a "+q.Kind+" request changed something outside the file root")
-			return
+	h := &c07Run{c: c, ts: ts}
+	h.box = c07Sandbox(c.R, ts)
+	h.cc, _ = ts.DirectClient("admin", []byte("admin"), "127.0.0.1:1")
+	h.before = h.box.outside(ts.Root)
+	return h
+}
+
+// Do runs q on the real handler; false = a violation or disagreement was recorded (stop the case).
+func (h *c07Run) Do(q fileReq) bool {
+	c, ts, box := h.c, h.ts, h.box
+	h.n++
+	pre, okPre := treeTokens(ts.Root)
+	res, _, pan := ts.Call(h.cc, q.tran(uint32(h.n)))
+	reply := canonReply(q.Kind, res, pan)
+	h.trace = append(h.trace, q.String()+" => "+clipN7(reply, 120))
+	c.Dist("req/" + q.Kind + "/" + strings.SplitN(reply, " ", 2)[0])
+	after := box.outside(ts.Root)
+	if after != h.before {
+		c.Note("request", q.String())
+		c.Note("reply", clipN7(reply, 300))
+		c.Note("outside_diff", diffLines(h.before, after))
+		c.Note("history", h.trace)
+		c.Violation("escape-"+q.Kind, "a "+q.Kind+" request changed something outside the file root")
+		return false
+	}
+	if bytes.Contains(replyBytes(res), []byte(box.marker)) {
+		c.Note("request", q.String())
+		c.Note("reply", clipN7(reply, 400))
+		c.Note("history", h.trace)
+		c.Violation("disclose-"+q.Kind, "the reply to a "+q.Kind+" request contains bytes of a file outside the file root")
+		return false
+	}
+	if li, err := os.Lstat(ts.Root); err != nil || !li.IsDir() {
+		c.Note("request", q.String())
+		c.Violation("root-gone-"+q.Kind, "the file root itself was removed or replaced")
+		return false
+	}
+	c.Nontrivial(q.Kind + "|" + optTok(q.PF, q.HasPF) + "|" + hx(q.Name) + "|" + optTok(q.NewPF, q.HasNewPF) + "|" + optTok(q.NewName, q.HasNewName))
+	// correspondence with the model's run on the same pre-state, when the OS sees the paths the model sees
+	post, okPost := treeTokens(ts.Root)
+	if okPre && okPost && box.modelable(q, pre) {
+		ans := c.O.Ask(fmt.Sprintf("fsstep p2e,p40 %d %s %s", len(pre), strings.Join(pre, " "), q.oracleArgs()))
+		mreply, mtree, mok := splitOracleStep(ans)
+		if !mok {
+			c.Note("oracle", clipN7(ans, 300))
+			c.Disagree("oracle-fsstep", "oracle could not evaluate the step")
+			return false
 		}
-		if bytes.Contains(replyBytes(res), []byte(box.marker)) {
-			c.Note("request", q.String())
-			c.Note("reply", clipN7(reply, 400))
-			c.Note("history", trace)
-			c.Violation("disclose-"+q.Kind, "the reply to a "+q.Kind+" request contains bytes of a file outside the file root")
-			return
-		}
-		if li, err := os.Lstat(ts.Root); err != nil || !li.IsDir() {
-			c.Note("request", q.String())
-			c.Violation("root-gone-"+q.Kind, "the file root itself was removed or replaced")
-			return
-		}
-		c.Nontrivial(q.Kind + "|" + optTok(q.PF, q.HasPF) + "|" + hx(q.Name) + "|" + optTok(q.NewPF, q.HasNewPF) + "|" + optTok(q.NewName, q.HasNewName))
-		// correspondence with the model's run on the same pre-state, when the OS sees the paths the model sees
-		post, okPost := treeTokens(ts.Root)
-		if okPre && okPost && box.modelable(q, pre) {
-			ans := c.O.Ask(fmt.Sprintf("fsstep p2e,p40 %d %s %s", len(pre), strings.Join(pre, " "), q.oracleArgs()))
-			mreply, mtree, mok := splitOracleStep(ans)
-			if !mok {
-				c.Note("oracle", clipN7(ans, 300))
-				c.Disagree("oracle-fsstep", "oracle could not evaluate the step")
-				return
-			}
-			if q.Kind == "info" || q.Kind == "download" || q.Kind == "upload" {
-				if full, err := hotline.ReadPath(ts.Root, pfOrNil7(q), q.Name); err == nil {
-					isDir := func(p string) bool { fi, err := os.Stat(p); return err == nil && fi.IsDir() }
-					if isDir(full) || isDir(full+".incomplete") {
-						reply, mreply = maskSizes7(reply), maskSizes7(mreply)
-					}
+		if q.Kind == "info" || q.Kind == "download" || q.Kind == "upload" {
+			if full, err := hotline.ReadPath(ts.Root, pfOrNil7(q), q.Name); err == nil {
+				isDir := func(p string) bool { fi, err := os.Stat(p); return err == nil && fi.IsDir() }
+				if isDir(full) || isDir(full+".incomplete") {
+					reply, mreply = maskSizes7(reply), maskSizes7(mreply)
 				}
 			}
-			if mreply != reply || strings.Join(mtree, " ") != strings.Join(sortedCopy(post), " ") {
-				c.Note("request", q.String())
-				c.Note("history", trace)
-				c.Note("impl_reply", clipN7(reply, 500))
-				c.Note("model_reply", clipN7(mreply, 500))
-				c.Note("impl_only", diffTok(sortedCopy(post), mtree))
-				c.Note("model_only", diffTok(mtree, sortedCopy(post)))
-				c.Corr("fsstep-"+q.Kind, reply+" | tree", mreply+" | tree'", false)
-				return
-			}
-			c.Corr("fsstep-"+q.Kind, "same", "same", false)
-		} else {
-			c.Dist("not-modelled")
+		}
+		if mreply != reply || strings.Join(mtree, " ") != strings.Join(sortedCopy(post), " ") {
+			c.Note("request", q.String())
+			c.Note("history", h.trace)
+			c.Note("impl_reply", clipN7(reply, 500))
+			c.Note("model_reply", clipN7(mreply, 500))
+			c.Note("impl_only", diffTok(sortedCopy(post), mtree))
+			c.Note("model_only", diffTok(mtree, sortedCopy(post)))
+			c.Corr("fsstep-"+q.Kind, reply+" | tree", mreply+" | tree'", false)
+			return false
+		}
+		c.Corr("fsstep-"+q.Kind, "same", "same", false)
+	} else {
+		c.Dist("not-modelled")
+	}
+	return true
+}
+
+func c07Canary(c *Case) {
+	r := c.R
+	h := newC07Run(c, r.Bool())
+	if h == nil {
+		return
+	}
+	defer h.ts.Close()
+	for i := 0; i < 40; i++ {
+		if !h.Do(h.box.hostileReq(r)) {
+			return
 		}
 	}
-	c.Sample(map[string]any{"family": "handlers-canary", "last": trace[len(trace)-1]})
+	c.Sample(map[string]any{"family": "handlers-canary", "last": h.trace[len(h.trace)-1]})
+}
+
+// c07Regressions replays the inputs on which the code failed before the fix: commits (kept as a fixed corpus).
+func c07Regressions(c *Case) {
+	h := newC07Run(c, true)
+	if h == nil {
+		return
+	}
+	defer h.ts.Close()
+	sub := encItems([][]byte{[]byte("sub")})
+	reqs := []fileReq{
+		// ecdb1a7: requests that name nothing addressed the root (and its side files next to it)
+		{Kind: "info"}, {Kind: "info", PF: []byte{0, 0}, HasPF: true},
+		{Kind: "download"},
+		{Kind: "setinfo", Comment: []byte("c"), HasComment: true},
+		{Kind: "setinfo", NewName: []byte("moved"), HasNewName: true},
+		{Kind: "move", NewPF: sub, HasNewPF: true},
+		{Kind: "move", NewPF: encItems([][]byte{[]byte("..")}), HasNewPF: true},
+		{Kind: "delete"},
+		{Kind: "delete", PF: encItems([][]byte{[]byte("sub"), []byte("..")}), HasPF: true, Name: []byte(".")},
+		// 43697ad: a file rename with a path as the new name
+		{Kind: "setinfo", Name: []byte("a.txt"), NewName: []byte("../escaped.txt"), HasNewName: true},
+		{Kind: "setinfo", PF: sub, HasPF: true, Name: []byte("b.txt"), NewName: []byte("../../escaped.txt"), HasNewName: true},
+		{Kind: "setinfo", PF: sub, HasPF: true, Name: []byte("b.txt"), NewName: []byte(h.ts.Cfg + "/escaped.txt"), HasNewName: true},
+		// the classic ones, which ReadPath always stopped
+		{Kind: "delete", Name: []byte("../outside.txt")},
+		{Kind: "delete", PF: encItems([][]byte{[]byte(".."), []byte("..")}), HasPF: true, Name: []byte("outside.txt")},
+		{Kind: "newfolder", Name: []byte("../made")},
+		{Kind: "alias", Name: []byte("a.txt"), NewPF: encItems([][]byte{[]byte("..")}), HasNewPF: true},
+		{Kind: "move", Name: []byte("a.txt"), NewPF: encItems([][]byte{[]byte(".."), []byte("Sibling")}), HasNewPF: true},
+		{Kind: "upload", Resume: true},
+		{Kind: "list", PF: encItems([][]byte{[]byte("..")}), HasPF: true},
+		{Kind: "dlfolder", Name: []byte("..")},
+	}
+	for _, q := range reqs {
+		if !h.Do(q) {
+			return
+		}
+	}
+	// cab4779 (and its siblings): account rename / create / delete with a path as the login
+	func() {
+		ts, err := newTS(TSOpt{Direct: true, Accounts: []AcctSpec{{Login: "admin", Name: "admin", Password: "", Access: allAccess()},
+			{Login: "bob", Name: "bob", Password: "", Access: guestAccess()}}})
+		if err != nil {
+			return
+		}
+		defer ts.Close()
+		box := c07Sandbox(c.R, ts)
+		cc, _ := ts.DirectClient("admin", []byte("admin"), "127.0.0.1:1")
+		before := box.outside(ts.Users)
+		acc := cc.Account.Access
+		ren := func(old, nl string) hotline.Transaction {
+			return mkTran(hotline.TranUpdateUser, 1, fld(hotline.FieldData, subFields(
+				fld(hotline.FieldData, obf([]byte(old))), fld(hotline.FieldUserLogin, obf([]byte(nl))), fld(hotline.FieldUserName, []byte("n")),
+				fld(hotline.FieldUserPassword, []byte{0}), fld(hotline.FieldUserAccess, acc[:]))))
+		}
+		for i, t := range []hotline.Transaction{
+			ren("bob", "../escaped"),
+			ren("../escaped", "../../escaped2"),
+			mkTran(hotline.TranNewUser, 2, fld(hotline.FieldUserLogin, obf([]byte("../created"))), fld(hotline.FieldUserName, []byte("n")),
+				fld(hotline.FieldUserPassword, []byte("pw")), fld(hotline.FieldUserAccess, acc[:])),
+			mkTran(hotline.TranDeleteUser, 3, fld(hotline.FieldUserLogin, obf([]byte("../victim")))),
+			mkTran(hotline.TranDeleteUser, 4, fld(hotline.FieldUserLogin, obf([]byte("../x")))),
+		} {
+			ts.Call(cc, t)
+			if after := box.outside(ts.Users); after != before {
+				c.Note("step", i)
+				c.Note("outside_diff", diffLines(before, after))
+				c.Violation("escape-account-regression", "an account request with a path as login changed something outside the accounts directory")
+				return
+			}
+		}
+	}()
+	// 4090825: folder-upload item path `..`,`..`,`evil`
+	if p := hotline.VerifFolderUploadPath([2]byte{0, 3}, []byte{0, 0, 2, '.', '.', 0, 0, 2, '.', '.', 0, 0, 4, 'e', 'v', 'i', 'l'}); p != "evil" {
+		c.Note("formatted_path", p)
+		c.Violation("folder-item-path-escape", "folderUpload.FormattedPath returned a path that leaves the upload folder")
+	}
 }
 
 func clipN7(s string, n int) string {
@@ -1113,6 +1225,7 @@ func init() {
 			"no symlink inside the root points outside it when the server starts (the model proves aliases created by the server point inside)",
 			"symlinks in intermediate path components are resolved by the OS, not by the model (lexical containment + the invariant above)",
 		}
+		x.Add(&Family{Name: "regressions", Quick: 1, Thor: 1, Run: c07Regressions})
 		x.Add(&Family{Name: "readpath", Quick: 12000, Thor: 300000, Run: c07ReadPath})
 		x.Add(&Family{Name: "clean-join", Quick: 4000, Thor: 100000, Run: c07CleanJoin})
 		x.Add(&Family{Name: "folder-item-path", Quick: 4000, Thor: 100000, Run: c07FuPath})
